@@ -155,6 +155,11 @@ UNIT = VUnit(
     trusted=["argument evaluation is the shim Args::eval(k) whose `requires k < n` is the bounds condition of `args.args[k]` (R11b); a method name -> builtin lookup is an uninterpreted function of the name",
              "the builtin bodies (StringBuiltin::slice/find/replace/split/.., ArrayBuiltin::join) are cut out of the arms (R12/R13): they are units tw/replace (Verus) and strings.rs (Kani)",
              "RuntimeError::new(kind, span) is reduced to its kind (R6)"],
+    # the dispatch functions rely on what eval_member_call established (method known for the receiver type, arity checked): nobody else calls them
+    callers_closed=[(f, "src/runtime.rs", ["eval_member_call"]) for f in
+                    ("eval_string_member_call", "eval_array_member_call", "eval_array_member_call_mut", "eval_process_command_call_mut",
+                     "eval_process_command_call", "eval_number_member_call")]
+                   + [("eval_member_call", "src/runtime.rs", ["eval_function_call"]), ("eval_builtin_call", "src/runtime.rs", ["eval_function_call"])],
     items=[
         Enum("StringBuiltin", source="src/builtins/string.rs"),
         Enum("ArrayBuiltin", source="src/builtins/array.rs"),
